@@ -111,22 +111,20 @@ var c16Fixed = []string{
 	"a := [[1 2] [3]]\nb := a * 2\nb[0][0] = 9\nc := a[0][0]\nd := b[2][0]\n",
 	"a := [1 2]\nb := a * 0\nc := a * 2.5\n", "a := [1 2]\nb := a * -1\n", "a := []\nb := a + []\nc := [] * 3\nd := b == c\n",
 	"x := 7 / 2\ny := 7 % 3\nz := -7 % 3\nw := 1 / 0\n", "x := 5\ny := 0\nz := x % y\n", "x := 0 / 0\ny := x == x\n",
-	"x := 1e300 * 1e300\ny := -x\nz := x - x\n",
 	// scoping
 	"x := 10\nt := 0\nfor x := range 3\n    t = t + x\nend\nx = x + 1\n",
 	"x := \"s\"\nt := 0\nfor x := range 3\n    t = t + x\nend\nx = x + \"!\"\n",
 	"t := 0\nif true\n    x := 5\n    for x := range 2\n        t = t + x\n    end\n    t = t * 10 + x\nend\n",
-	"t := 0\nfor i := range 2\n    for i := range 3\n        t = t + 1\n    end\n    t = t + 100 * i\nend\n",
-	"t := 0\nfor i := range 2\n    i := 7\n    t = t + i\nend\n",
-	"t := \"\"\nfor c := range \"ab\"\n    for c := range [1 2]\n        t = t + \"x\"\n    end\n    t = t + c\nend\n",
+	"t := 0\nfor i := range 2\n    for i := range 3\n        t = t + 1 + i\n    end\n    t = t + 100 * i\nend\n",
+	"t := \"\"\nn := 0\nfor c := range \"ab\"\n    for c := range [1 2]\n        t = t + \"x\"\n        n = n + c\n    end\n    t = t + c\nend\n",
 	"a := 1\nif true\n    b := 2\n    if true\n        c := 3\n        a = a + b + c\n    end\n    d := 4\n    a = a + b + d\nend\nif true\n    e := 5\n    a = a + e\nend\n",
 	"t := 0\nwhile t < 3\n    u := t * 2\n    v := u + 1\n    t = t + 1\n    if v > 2\n        w := v\n        t = t + w - w\n    end\nend\n",
-	"g := 0\nfor i := range 2\n    r := g + 1\n    g := \"s\"\n    g = g + \"t\"\n    tn := r\n    tn = tn + 1\nend\n",
+	"g := 0\nfor i := range 2\n    r := g + 1 + i\n    g := \"s\"\n    g = g + \"t\"\n    tn := r\n    tn = tn + 1\nend\n",
 	"x := 1\nif true\n    x := 2\n    x = x + 1\n    if true\n        x := 3\n        x = x + 1\n    end\n    x = x + 10\nend\nx = x + 100\n",
 	"t := 0\nfor i := range 3\n    for j := range 3\n        if j == 1\n            break\n        end\n        t = t + 10 * i + j\n    end\nend\n",
 	"t := 0\ni := 0\nwhile true\n    i = i + 1\n    if i > 3\n        break\n    end\n    while true\n        t = t + i\n        break\n    end\nend\n",
 	"t := 0\nfor i := range 1 10 3\n    t = t + i\nend\nfor i := range 3 -3 -2\n    t = t * 10 + i\nend\nfor i := range 0 1 0.25\n    t = t + i\nend\nfor range 3\n    t = t + 1\nend\n",
-	"t := 0\nfor i := range 0 1 0\n    t = 1\nend\n",
+	"t := 0\nfor i := range 0 1 0\n    t = 1 + i\nend\n",
 	"a := [1 2 3]\nt := 0\nfor e := range a\n    a[2] = 10\n    t = t + e\nend\nfor e := range a\n    a = [0]\n    t = t + e\nend\n",
 	"m := {a:1 b:2}\nt := \"\"\nfor k := range m\n    t = t + k\n    m[\"c\"] = 3\nend\n",
 	// every slice is a fresh array, also the whole-array slices
@@ -135,6 +133,9 @@ var c16Fixed = []string{
 	// constants of different types with the same printed form are different constants
 	"n := 7\nx := \"7\"\ny := x + \"!\"\nm := n + 1\nb := true\nt := \"true\"\nu := t + \"?\"\nc := !b\nz := 0\ne := \"0\"\nf := e + e\ng := z + z\n",
 	"x := \"7\"\nn := 7\nm := n * 2\ny := x + x\nk := 1\nl := \"1\"\nj := [1 \"1\" 1.0 \"1.0\"]\nq := j[0] == j[2]\nr := j[1] == j[3]\n",
+	"n := 7\nx := \"7\"\nb := true\nt := \"true\"\nz := 0\ne := \"0\"\nf := 1.5\ng := \"1.5\"\n",
+	"x := \"7\"\nn := 7\nt := \"true\"\nb := true\n",
+	"k := \"\"\nn := 0\nfor c := range \"ab\"\n    k = k + c\nend\nx := \"0\"\ny := \"1\"\nfor e := range [5 6]\n    k = k + \"|\"\n    n = n + e\nend\nz := \"0\"\n",
 	// locals declared after an inner block ended; many locals on several levels
 	"t := 0\nif true\n    a := 1\n    if true\n        b := 2\n        c := 3\n        t = t + b + c\n    end\n    d := 4\n    e := 5\n    f := 6\n    t = t + a + d + e + f\nend\n",
 	"func f:num p:num\n    a := p + 1\n    if a > 0\n        b := a * 2\n        if b > 0\n            c := b * 2\n            a = a + c\n        end\n        d := a + b\n        e := d + 1\n        a = e\n    end\n    g := a + 1\n    h := g + 1\n    return h\nend\nr := f 1\nr = r + (f 2)\n",
@@ -201,8 +202,10 @@ func c16Programs(w *fw.Worker, visit func(src string, prog *pt.Prog)) {
 		}
 	}
 	for _, src := range c16Fixed {
-		prog, _, _ := run.Parse(src)
+		src = c16UseGlobals(src)
+		prog, errs, _ := run.Parse(src)
 		if prog == nil {
+			w.Internal("C16: a fixed program is not accepted by the parser: " + fmt.Sprint(errs) + "\n" + src)
 			continue
 		}
 		p, err := astconv.Prog(prog)
@@ -211,6 +214,26 @@ func c16Programs(w *fw.Worker, visit func(src string, prog *pt.Prog)) {
 		}
 		visit(src, p)
 	}
+}
+
+var unusedRe = regexp.MustCompile(`^line \d+ column 1: "(\w+)" declared but not used$`)
+
+// c16UseGlobals appends a self-assignment for every global the parser reports as unused (the fixed programs are about the values
+// the globals end with; the parser insists that each is read somewhere).
+func c16UseGlobals(src string) string {
+	prog, errs, _ := run.Parse(src)
+	if prog != nil || errs == nil {
+		return src
+	}
+	var add []string
+	for _, l := range strings.Split(errs.Error(), "\n") {
+		m := unusedRe.FindStringSubmatch(strings.TrimSpace(l))
+		if m == nil {
+			return src // another kind of error: reported by the caller
+		}
+		add = append(add, m[1]+" = "+m[1]+"\n")
+	}
+	return src + strings.Join(add, "")
 }
 
 func runBytecode(w *fw.Worker, id string) {
@@ -265,6 +288,8 @@ func vmClass(err error) string {
 		return "panic:map-key"
 	case errors.Is(err, bytecode.ErrBadRepetition):
 		return "panic:repetition"
+	case strings.Contains(err.Error(), "bad range value"):
+		return "panic:range"
 	case errors.Is(err, bytecode.ErrStackOverflow):
 		return "stack-overflow"
 	case errors.Is(err, bytecode.ErrInternal):
@@ -439,10 +464,42 @@ func c16Classify(src, want, got string) string {
 		return "string-bytes"
 	case strings.Contains(got, "<order has"):
 		return "map-order-table-mismatch"
+	case mapInsertByIndex(src) && len(got) < len(want) && isSubsequence(got, want):
+		// the same defect seen through iteration: the inserted key is in the table but not in the order, a range over the map skips it
+		return "map-order-table-mismatch"
 	case sortedChars(want) == sortedChars(got) && strings.Contains(want, "{"):
 		return "map-order"
 	}
 	return "global-value-differs"
+}
+
+var (
+	mapStoreRe = regexp.MustCompile(`(?m)^\s*\w+\["(\w+)"\] = `)
+	mapKeyRe   = regexp.MustCompile(`[{ ](\w+):`)
+)
+
+// mapInsertByIndex reports whether the program stores through m["k"] with a key that no map literal of the program has.
+func mapInsertByIndex(src string) bool {
+	lit := map[string]bool{}
+	for _, m := range mapKeyRe.FindAllStringSubmatch(src, -1) {
+		lit[m[1]] = true
+	}
+	for _, m := range mapStoreRe.FindAllStringSubmatch(src, -1) {
+		if !lit[m[1]] {
+			return true
+		}
+	}
+	return false
+}
+
+func isSubsequence(a, b string) bool {
+	i := 0
+	for j := 0; j < len(b) && i < len(a); j++ {
+		if a[i] == b[j] {
+			i++
+		}
+	}
+	return i == len(a)
 }
 
 var forVarRe = regexp.MustCompile(`(?m)^\s*for (\w+) := range`)
